@@ -6,6 +6,7 @@ import (
 	"go/constant"
 	"go/parser"
 	"go/token"
+	"go/types"
 	"path/filepath"
 	"strconv"
 	"strings"
@@ -419,14 +420,54 @@ func init() {
 		if fd == nil {
 			return fmt.Errorf("internal/wire: (*TransportParameters).PopulateFromUQUIC not found")
 		}
-		var sw *ast.SwitchStmt
-		ast.Inspect(fd.Body, func(n ast.Node) bool {
-			if s, ok := n.(*ast.SwitchStmt); ok && sw == nil {
-				sw = s
+		// The switch over the parameter id: the first switch statement (in PopulateFromUQUIC or a same-package helper
+		// it calls) all of whose case expressions are integer CONSTANTS (evaluated by go/types, so `uint64(xParameterID)`
+		// against `param.ID()` and `xParameterID` against `transportParameterID(param.ID())` read the same).
+		wfl := newFlow(wp)
+		constOf := func(e ast.Expr) (string, string, bool) {
+			tv, ok := wp.Info.Types[e]
+			if !ok || tv.Value == nil || tv.Value.Kind() != constant.Int {
+				return "", "", false
 			}
-			return sw == nil
-		})
+			name := ""
+			ast.Inspect(e, func(n ast.Node) bool {
+				if id, ok := n.(*ast.Ident); ok && name == "" {
+					if _, isConst := wp.Info.Uses[id].(*types.Const); isConst {
+						name = id.Name
+					}
+				}
+				return true
+			})
+			return constant.ToInt(tv.Value).ExactString(), name, true
+		}
+		var sw *ast.SwitchStmt
+		sawSwitch := false
+		for _, body := range wfl.bodiesFrom(fd.Body.List, 2) {
+			ast.Inspect(body, func(n ast.Node) bool {
+				s, ok := n.(*ast.SwitchStmt)
+				if !ok || sw != nil {
+					return sw == nil
+				}
+				sawSwitch = true
+				ncase, allConst := 0, true
+				for _, st := range s.Body.List {
+					for _, e := range st.(*ast.CaseClause).List {
+						ncase++
+						if _, _, ok := constOf(e); !ok {
+							allConst = false
+						}
+					}
+				}
+				if ncase > 0 && allConst {
+					sw = s
+				}
+				return sw == nil
+			})
+		}
 		if sw == nil {
+			if sawSwitch {
+				return fmt.Errorf("PopulateFromUQUIC: unexpected case expression (no switch whose cases are all integer constants)")
+			}
 			return fmt.Errorf("PopulateFromUQUIC: switch not found")
 		}
 		type pc struct {
@@ -438,22 +479,12 @@ func init() {
 		for _, st := range sw.Body.List {
 			cc := st.(*ast.CaseClause)
 			for _, e := range cc.List {
-				// uint64(xParameterID)
-				call, ok := e.(*ast.CallExpr)
-				if !ok || len(call.Args) != 1 {
-					return fmt.Errorf("PopulateFromUQUIC: unexpected case expression")
-				}
-				id, ok := call.Args[0].(*ast.Ident)
-				if !ok {
-					return fmt.Errorf("PopulateFromUQUIC: unexpected case expression")
-				}
-				v, _, _, ok := wp.Const(id.Name)
-				if !ok {
-					return fmt.Errorf("PopulateFromUQUIC: constant %s not found", id.Name)
-				}
+				idv, constIdent, _ := constOf(e)
+				// the kind of read-back: look at the case body and at the helpers it hands the parameter to
+				bodies := wfl.bodiesFrom(cc.Body, 2)
 				kind, typ := "flag", ""
 				okAsserts := map[*ast.TypeAssertExpr]bool{}
-				for _, b := range cc.Body {
+				for _, b := range bodies {
 					ast.Inspect(b, func(n ast.Node) bool {
 						if as, ok := n.(*ast.AssignStmt); ok && len(as.Lhs) == 2 && len(as.Rhs) == 1 {
 							if ta, ok := as.Rhs[0].(*ast.TypeAssertExpr); ok {
@@ -463,7 +494,7 @@ func init() {
 						return true
 					})
 				}
-				for _, b := range cc.Body {
+				for _, b := range bodies {
 					ast.Inspect(b, func(n ast.Node) bool {
 						if ta, ok := n.(*ast.TypeAssertExpr); ok && ta.Type != nil {
 							tn := ""
@@ -482,7 +513,7 @@ func init() {
 						return true
 					})
 				}
-				cases = append(cases, pc{id: constant.ToInt(v).ExactString(), kind: kind, typ: typ, constIdent: id.Name})
+				cases = append(cases, pc{id: idv, kind: kind, typ: typ, constIdent: constIdent})
 			}
 		}
 		w.P("/-- internal/wire/u_transport_parameters.go `PopulateFromUQUIC`: (parameter id, kind, asserted uTLS type);")
